@@ -103,6 +103,22 @@ struct RDirect : RImpl {
   St Skip(size_t n) override { return r.Skip(n); }
 };
 
+// A user-defined reader over a source that goes on for ever: the given bytes, then zeros. Skip only advances a
+// counter, so entries declared with sizes of gigabytes can be skipped (used to place faults in such reads).
+struct RSparse : RImpl {
+  const uint8_t* data; size_t n; uint64_t pos = 0;
+  RSparse(const uint8_t* d, size_t len) : data(d), n(len) {}
+  St Ensure(size_t) override { return {}; }
+  St Read1(uint8_t* b) override { *b = pos < n ? data[pos] : 0; pos++; return {}; }
+  St ReadN(void* p, size_t nbytes) override {
+    uint8_t* b = static_cast<uint8_t*>(p);
+    for (size_t i = 0; i < nbytes; i++) b[i] = (pos + i) < n ? data[pos + i] : 0;
+    pos += nbytes;
+    return {};
+  }
+  St Skip(size_t k) override { pos += k; return {}; }
+};
+
 struct RFd : RImpl {
   nop::FdReader r;
   explicit RFd(int fd) : r(fd) {}
@@ -447,8 +463,9 @@ class DynWriter {
     if (Pre("pushh", 0, &st)) return st.error();
     pushed.push_back(static_cast<int64_t>(handle.get()));
     int64_t ref;
-    if (!handle) ref = nop::kEmptyHandleReference;
-    else if (affine_handles) ref = 2 * static_cast<int64_t>(handle.get()) + 7;
+    // (a writer is free to hand out a reference of its own for an empty handle too: refs_for_empty)
+    if (!handle && !(refs_for_empty && next_ref_ < refs.size())) ref = nop::kEmptyHandleReference;
+    else if (affine_handles && handle) ref = 2 * static_cast<int64_t>(handle.get()) + 7;
     else if (next_ref_ < refs.size()) ref = refs[next_ref_++];
     else ref = static_cast<int64_t>(auto_ref_++);
     returned.push_back(ref);
@@ -483,6 +500,7 @@ class DynWriter {
   std::vector<uint8_t> attempted;  // bytes handed to successful primitives
   std::vector<int64_t> pushed, returned, refs;
   bool affine_handles = false;
+  bool refs_for_empty = false;
   bool log = true;
   bool unsupported = false;
   bool has_oob = false;
